@@ -111,6 +111,8 @@ def replay(cfg, label, env, case):
         except Exception as e:
             return dict(reproduced=type(e).__name__ == label.split(":", 1)[1], detail="%s: %s" % (type(e).__name__, str(e)[:200]))
         return dict(reproduced=False, detail="no exception on the real library")
+    if label.startswith("adj:shape(d/d") and label.endswith(")"):
+        label = "adj:d/d" + label[len("adj:shape(d/d"):-1]       # decided by the value clause of the same symbol
     if not label.startswith("adj:d/d"):
         return dict(reproduced=None, detail="no replay for label " + label)
     s = label[len("adj:d/d"):]
@@ -144,7 +146,8 @@ def replay(cfg, label, env, case):
     g = []
     for sg, x in zip(setup.inputs, x0):
         gi = dense_entries(sg.sensitivity)
-        g.append(np.zeros_like(x) if gi is None else np.array(gi, dtype=complex).reshape(-1))
+        gi = None if gi is None else np.array(gi, dtype=complex).reshape(-1)
+        g.append(np.zeros_like(x) if gi is None or gi.size == 0 else gi)      # (an unshaped empty DyadCarrier is a zero)
 
     def F_and_x(t):
         e = dict(env)
